@@ -47,6 +47,8 @@ pub const ENTRIES: &[Entry] = &[
     p28::S_KEYED_FIRST,
     net::N_M2O,
     net::N_O2M,
+    // exposes the known finding F1 (FINDINGS.md): class `sequence_differs/q_resp_22`
+    crate::p39p::Q_RESP_22,
 ];
 
 fn mode(name: &str) -> Mode {
@@ -94,7 +96,7 @@ pub fn run(entry: &Entry, sim: &mut Sim) -> Outcome {
     let inputs: Vec<Vec<Val>> = entry.inputs.iter().map(|s| sched::gen_input(sim, *s, &knobs)).collect();
     let items: usize = inputs.iter().map(|i| i.len()).sum();
     let bound = p28::liveness_bound(entry, items).min(8);
-    let spec = entry.final_spec.expect("C29 entry without final_spec");
+    let spec = entry.final_spec;
     let mut violation: Option<Violation> = None;
     let mut viol = |class: &str, detail: String| {
         if violation.is_none() {
@@ -124,11 +126,11 @@ pub fn run(entry: &Entry, sim: &mut Sim) -> Outcome {
     match (&f1, &f2) {
         (Err((c, d)), _) | (_, Err((c, d))) => viol(c, d.clone()),
         (Ok(a), Ok(b)) => {
-            let want = spec(&in1);
+            let want = spec.map(|f| f(&in1));
             if a != b {
                 let class = if m == Mode::Ordered { "sequence_differs" } else { "per_key_result_differs" };
                 viol(class, format!("run 1 (input {in1:?}, releases {:?}) gives {a:?}; run 2 (input {in2:?}, releases {:?}) gives {b:?}", plan1.rel, plan2.rel));
-            } else if *a != want {
+            } else if let Some(want) = want.as_ref().filter(|w| *w != a) {
                 viol("final_vs_spec", format!("input {in1:?}: got {a:?}, spec says {want:?}"));
             } else if m != Mode::Ordered && items > 0 {
                 // run 3: only one key's items, everything else removed, canonical schedule
